@@ -149,12 +149,18 @@ class Inotify:
         inotify_fd = inotify_init()
         if inotify_fd == -1:
             Inotify._raise_error()
+            # _raise_error() stays silent about EACCES
+            raise OSError(errno.EACCES, os.strerror(errno.EACCES))
         self._inotify_fd = inotify_fd
         self._lock = threading.Lock()
         self._closed = False
         # Set while a reader is blocked in read_events(): close() then leaves the clean-up to it.
         self._is_reading = False
-        self._kill_r, self._kill_w = os.pipe()
+        try:
+            self._kill_r, self._kill_w = os.pipe()
+        except OSError:
+            os.close(inotify_fd)
+            raise
 
         # _check_inotify_fd will return true if we can read _inotify_fd without blocking
         if hasattr(select, "poll"):
@@ -187,10 +193,16 @@ class Inotify:
         self._event_mask = event_mask
         self._follow_symlink = follow_symlink
         self._is_recursive = recursive
-        if os.path.isdir(path):
-            self._add_dir_watch(path, event_mask, recursive=recursive)
-        else:
-            self._add_watch(path, event_mask)
+        try:
+            if os.path.isdir(path):
+                self._add_dir_watch(path, event_mask, recursive=recursive)
+            else:
+                self._add_watch(path, event_mask)
+        except Exception:
+            # Nobody will ever close() a half-constructed instance: release the descriptors.
+            self._closed = True
+            self._close_resources()
+            raise
         self._moved_from_events: dict[int, InotifyEvent] = {}
 
     @property
